@@ -29,9 +29,24 @@ def gen_scenario(rng):
             "ctor": rng.random() < 0.25}
 
 
+def gen_objects(rng):
+    """C16 outside the model (monitors only): values of every kind — classes, partials, callable objects, strings, 0, "" — are
+    values; only plain functions are post-push callbacks, which run after a batch went out and may raise (once)"""
+    sc = gen_scenario(rng)
+    sc["objects"] = True
+    sc["ctor"] = False
+    sc["ppf"] = []
+    for pi, p in enumerate(sc["producers"]):
+        for k in range(len(p) + 1):
+            if rng.random() < 0.25:
+                sc["ppf"].append([pi, k, rng.random() < 0.5])       # after the k-th value of producer pi; raises the first time?
+    return sc
+
+
 def shape(sc):
     return "b%d:p%s:%s:f%s:%s%s" % (sc["batch"], sc["period"], "/".join(str(len(p)) for p in sc["producers"]),
-                                     "".join("x" if f else "." for f in sc["fails"]), sc["exit_mode"], ":ctor" if sc.get("ctor") else "")
+                                     "".join("x" if f else "." for f in sc["fails"]), sc["exit_mode"],
+                                     (":ctor" if sc.get("ctor") else "") + (":obj%d" % len(sc.get("ppf", [])) if sc.get("objects") else ""))
 
 
 class SinkFailure(Exception):
@@ -48,7 +63,7 @@ def run_scenario(sc, chooser=None, seed=0, max_steps=60000):
 
     class Sink(object):
         def extend(self, batch):
-            batch = list(batch)
+            batch = [unwrap(o) for o in batch]
             fail = st["fails"].pop(0) if st["fails"] else False
             sched.yield_point(("sink", "extend"))
             st["attempts"].append((batch, not fail))
@@ -59,6 +74,7 @@ def run_scenario(sc, chooser=None, seed=0, max_steps=60000):
 
         def add(self, v):
             sched.yield_point(("sink", "add"))
+            v = unwrap(v)
             if v == MARK:
                 st["markers"] += 1
                 sched.emit("m7", "sinkmarker")
@@ -146,6 +162,54 @@ def run_scenario(sc, chooser=None, seed=0, max_steps=60000):
             self.queue = TD()
     queues.Queue.__init__ = qinit
 
+    # values of every kind (monitor-only scenarios): v -> an object that stands for it
+    objs = {}
+
+    class CallableValue(object):
+        def __init__(self, v):
+            self.v = v
+
+        def __call__(self, *a, **k):
+            st["viol"].append("C16: the queue CALLED the value %r instead of handing it to the slow queue" % (self.v,))
+            raise RuntimeError("values are not callbacks")
+
+    def wrap(v):
+        if not sc.get("objects"):
+            return v
+        import functools
+        kind = v % 6
+        if kind == 1:
+            o = type("Value%d" % v, (object,), {"v": v, "__init__": lambda self, *a: st["viol"].append("C16: the queue instantiated a class that was added as a value")})
+        elif kind == 2:
+            o = functools.partial(lambda v=v: st["viol"].append("C16: the queue CALLED the partial that was added as value %d" % v))
+        elif kind == 3:
+            o = CallableValue(v)
+        elif kind == 4:
+            o = "s%d" % v
+        else:
+            o = v
+        objs[v] = o
+        return o
+
+    def unwrap(o):
+        for v, x in objs.items():
+            if x is o:
+                return v
+        return o
+
+    ppf_at = {}
+    for pi_, k_, raises_ in sc.get("ppf", []):
+        def make_ppf(pi_=pi_, k_=k_, raises_=raises_):
+            calls = []
+
+            def ppf():
+                calls.append(1)
+                st.setdefault("ppf_calls", {}).setdefault((pi_, k_), []).append(len(st["attempts"]))
+                if raises_ and len(calls) == 1:
+                    raise RuntimeError("post-push function raises (once)")
+            return ppf
+        ppf_at.setdefault((pi_, k_), []).append(make_ppf())
+
     def main_body():
         threads.start_main_thread()
         if sc.get("ctor"):
@@ -159,11 +223,15 @@ def run_scenario(sc, chooser=None, seed=0, max_steps=60000):
         sched.trace(tq.thread.please_stop, "WPS")
         prods = []
         for pi, (vals, pauses) in enumerate(zip(sc["producers"], sc["pauses"])):
-            def prod(please_stop, vals=vals, pauses=pauses):
-                for v, p in zip(vals, pauses):
+            def prod(please_stop, vals=vals, pauses=pauses, pi=pi):
+                for k, (v, p) in enumerate(zip(vals, pauses)):
+                    for f in ppf_at.get((pi, k), []):
+                        tq.add(f)
                     if p:
                         tillmod.Till(seconds=p).wait()
-                    tq.add(v)
+                    tq.add(wrap(v))
+                for f in ppf_at.get((pi, len(vals)), []):
+                    tq.add(f)
             prods.append(threads.Thread.run("prod%d" % pi, prod))
         for p in prods:
             p.join()
